@@ -36,7 +36,7 @@ impl CaseIn {
             })
             .unwrap_or_default();
         let mut extra = serde_json::Map::new();
-        for k in ["expect", "fault", "toks", "ctx", "origin"] {
+        for k in ["expect", "fault", "toks", "ctx", "origin", "variant"] {
             if let Some(x) = v.get(k) {
                 extra.insert(k.to_string(), x.clone());
             }
